@@ -149,7 +149,19 @@ def units():
         Unit("update[no screening, static A]", U, _upd(False, False), props=["C02"], timeout=900),
         Unit("update[no screening, dynamic A]", U, _upd(False, True), props=["C02"], timeout=900),
         Unit("update[screening, static A]", U, _upd(True, False), props=["C02"], timeout=900),
+        Unit("adaptive_euler_step on a real device [bounded]", "tdgl.solver.solver:TDGLSolver.adaptive_euler_step", run_native_quick, props=["C02"], timeout=600, kind="bounded"),
     ]
+
+
+def run_native_quick(mutate=None):
+    """BOUNDED stand-in in the quick tier: one real adaptive_euler_step per terminal setting (terminal_psi 0, real, complex, unset) on a device
+    with terminals; the answered psi' and |psi'|^2 must satisfy the documented equation at every site, terminal sites included"""
+    def body():
+        from checks import update_native
+        bad, n = update_native.step_equation_cases(0)
+        check("C02.bounded.answered_step_satisfies_the_equation_at_every_site[4 terminal settings]", z3.BoolVal(not bad), note=str(bad[:1]))
+    obls, n = explore(body)
+    return dict(obls=obls, paths=n, sources=[], consistent=True)
 
 
 M = "tdgl.solver.solver"
@@ -170,7 +182,7 @@ MUTANTS = [
 
 def thorough(seed=0):
     from pyvc import harness
-    summary, broken = harness.run_mutants("checks.c02", units(), MUTANTS)
+    summary, broken = harness.run_mutants("checks.c02", [u for u in units() if "bounded" not in u.name], MUTANTS)
     bounded = bounded_native(seed)
     return dict(coverage=dict(mutants=summary, mutants_killed=sum(1 for m in summary if m["verdict"] in ("killed", "not-proved") and m["expect"] == "killed"),
                               mutants_total=sum(1 for m in summary if m["expect"] == "killed"), bounded=bounded),
@@ -232,6 +244,10 @@ def bounded_native(seed, n=20000):
 
 
 def replay(unit, obl):
+    if "bounded" in unit:
+        from checks import update_native
+        bad, n = update_native.step_equation_cases(0)
+        return dict(confirmed=bool(bad), failing_input=(bad or [None])[0], evaluations=n)
     if unit.startswith("update["):
         return replay_update(unit, obl)
     return replay_kernel(unit, obl)
